@@ -1,4 +1,5 @@
 // Harness crate for c2-chacha: C01, C14, C15 (cores and parameters), C02, C11 (Buffer), C03 (per backend).
+#![recursion_limit = "1024"]
 #![allow(non_camel_case_types, unused_imports, dead_code, static_mut_refs, clippy::all)]
 #[path = "../common/nd.rs"]
 #[macro_use]
